@@ -242,6 +242,38 @@ def inline_temps(src: str) -> tuple[str, int]:
     return ast.unparse(tree) + "\n", tr.count
 
 
+def swap_independent(src: str) -> tuple[str, int]:
+    """swap adjacent simple assignments `a = E1; b = E2` that are call-free and do not mention each other's targets"""
+    tree = ast.parse(src)
+    count = 0
+    k = 0
+    for blk in ast.walk(tree):
+        for fld in ("body", "orelse", "finalbody"):
+            seq = getattr(blk, fld, None)
+            if not (isinstance(seq, list) and len(seq) >= 2 and isinstance(seq[0], ast.stmt)):
+                continue
+            i = 0
+            while i < len(seq) - 1:
+                a, b = seq[i], seq[i + 1]
+
+                def simple(st):
+                    return isinstance(st, ast.Assign) and len(st.targets) == 1 and isinstance(st.targets[0], ast.Name) \
+                        and not any(isinstance(x, (ast.Call, ast.Await, ast.Yield, ast.NamedExpr, ast.Lambda)) for x in ast.walk(st.value))
+                if simple(a) and simple(b):
+                    ta, tb = a.targets[0].id, b.targets[0].id
+                    ra = {x.id for x in ast.walk(a.value) if isinstance(x, ast.Name)}
+                    rb = {x.id for x in ast.walk(b.value) if isinstance(x, ast.Name)}
+                    if ta != tb and ta not in rb and tb not in ra:
+                        k += 1
+                        if k % 2 == 0:
+                            seq[i], seq[i + 1] = b, a
+                            count += 1
+                            i += 2
+                            continue
+                i += 1
+    return ast.unparse(ast.fix_missing_locations(tree)) + "\n", count
+
+
 def unparse_only(src: str) -> str:
     """normalise formatting through ast.unparse (quotes, parentheses, line breaks change; semantics do not)"""
     return ast.unparse(ast.parse(src)) + "\n"
@@ -275,6 +307,9 @@ def neutral_variants(root: pathlib.Path):
         new, n = inline_temps(src)
         if n >= 3:
             out.append((f"inline-temporaries:{rel}", {rel: new}))
+        new, n = swap_independent(src)
+        if n >= 2:
+            out.append((f"swap-independent-assignments:{rel}", {rel: new}))
     return out
 
 
